@@ -177,6 +177,9 @@ def build(e, leaves, console=None):
 
         return mk(e[1], None)
     if k == "PAD":
+        d = _dims(e[1])
+        if not e[2] and len(d) == 4 and d[:3] == [0, 0, 0]:
+            return Padding.indent(build(e[3], leaves), d[3])  # the documented shortcut for exactly this
         return Padding(build(e[3], leaves), e[1], expand=e[2], style=e[4] if len(e) > 4 else "none")
     if k == "PANEL":
         o = dict(e[1])
@@ -185,9 +188,16 @@ def build(e, leaves, console=None):
         t = o.get("title")
         if isinstance(t, Text):
             o["title"] = t.copy()
+        if o.get("expand", True) is False:  # Panel.fit is the documented constructor for expand=False
+            o.pop("expand")
+            return Panel.fit(build(e[2], leaves), **o)
         return Panel(build(e[2], leaves), **o)
     if k == "ALIGN":
-        return Align(build(e[2], leaves), **e[1])
+        o = dict(e[1])
+        a = o.pop("align")
+        if o.get("width") is None or o["width"] % 2 == 0:  # half through the classmethods, half through the constructor
+            return getattr(Align, a)(build(e[2], leaves), **o)
+        return Align(build(e[2], leaves), a, **o)
     if k == "CONSTRAIN":
         return Constrain(build(e[2], leaves), e[1])
     if k == "STYLED":
